@@ -482,8 +482,8 @@ func VH_Agg_Deterministic(k, fam, level, perm int) {
 //
 //verif:prop C06
 //verif:param k quick=4 thorough=3..4
-//verif:param fam quick=0 thorough=0..6
-//verif:param level quick=1 thorough=0..3
+//verif:param fam quick=0 thorough=0,4,5
+//verif:param level quick=1 thorough=1,3
 //verif:param perm quick=7,23 thorough=0,5,7,23
 //verif:summarize (*Signature).similar (*Signature).equal (*Signature).less (*Stack).less
 //verif:replay-iters 300
